@@ -82,6 +82,9 @@ CONSTANTS Hosts,      \* host names (strings)
           MaxSeeks,   \* caller budget
           PrioAsc,    \* TRUE: as the code sorts; FALSE: as documented
           Conc,       \* throttle slots per host (config.Host.ReqConcurrent)
+          LinkEntries,\* FALSE: as the code since ac54726 (a request for a pagination link names the host that served the
+                      \* link and carries NoMirrors); TRUE: as found (finding C12-5: the link request was walked through
+                      \* every mirror entry although each entry sends to the same URL), kept for seeded/fixrev-C12-5
           StoreAnchor,\* TRUE: as the code (backoffGet stores the release time also when no wait is needed);
                       \* FALSE: seeded/C12-7 (the anchor goes stale while the host is idle)
           RelNR,      \* TRUE: as the code (throttleDone() before the ErrNotRetryable abort); FALSE: seeded/C17-4
@@ -140,15 +143,22 @@ Less(a, b, t) ==
        THEN (IF PrioAsc THEN conf.prio[a] < conf.prio[b] ELSE conf.prio[a] > conf.prio[b])
        ELSE a # Up /\ b = Up
 Sorted(S, t) == {s \in Perms(S) : \A i, j \in 1..Cardinality(S) : i < j => ~Less(s[j], s[i], t)}
-HostSet(id) == IF conf.req[id].nomir THEN {Up} ELSE Hosts
+\* a request with a DirectURL (a pagination link of scheme/reg tagListLink / referrerListByAPIPage) goes to the
+\* host `direct` whatever entry of the list is current; back-off state and throttle are those of the entry
+Direct(id) == conf.req[id].direct
+Wire(id, h) == IF Direct(id) # "none" THEN Direct(id) ELSE h
+HostSet(id) == IF Direct(id) # "none" /\ ~LinkEntries THEN {Direct(id)}
+               ELSE IF conf.req[id].nomir /\ Direct(id) = "none" THEN {Up} ELSE Hosts
 
 \* ------------------------------------------------------------- events
-EvDo(id)      == [ev |-> "do", id |-> id, mut |-> Bit(Mut(id)), nomir |-> Bit(conf.req[id].nomir),
+EvDo(id)      == [ev |-> "do", id |-> id, mut |-> Bit(Mut(id)),
+                  nomir |-> Bit(conf.req[id].nomir \/ (Direct(id) # "none" /\ ~LinkEntries)),
+                  to |-> IF Direct(id) # "none" THEN Direct(id) ELSE Up,
                   ie |-> Bit(conf.req[id].ie), tc |-> now, os |-> Bit(conf.req[id].oneshot)]
 EvSeek(id, off) == [ev |-> "seek", id |-> id, tc |-> now, off |-> off]
 EvRead(id)    == [ev |-> "read", id |-> id, tc |-> now]
 EvRet(id, c, ok) == [ev |-> "ret", id |-> id, call |-> c, ok |-> Bit(ok), eq |-> 1]
-EvCut(id, h)  == [ev |-> "cut", id |-> id, h |-> h, t |-> now]
+EvCut(id, h)  == [ev |-> "cut", id |-> id, h |-> Wire(id, h), t |-> now]
 PKind(k) == CASE k \in {"ok", "ok206"} -> "ok"
               [] k \in {"short0", "short1", "short206"} -> "trunc"
               [] k \in {"s429", "s408", "s500", "s502", "s504"} -> "tf"
@@ -159,9 +169,9 @@ PKind(k) == CASE k \in {"ok", "ok206"} -> "ok"
               [] k \in {"s401n", "s401s", "s401b"} -> "auth"
               [] k \in {"okclbad", "ok200"} -> "badok"
               [] OTHER -> "other"
-EvAtt(id, h, t, k) == [ev |-> "att", id |-> id, h |-> h, ta |-> t, tr |-> t, k |-> PKind(k),
+EvAtt(id, h, t, k) == [ev |-> "att", id |-> id, h |-> Wire(id, h), ta |-> t, tr |-> t, k |-> PKind(k),
                        ra |-> IF k \in {"s429ra", "s500ra"} THEN RA ELSE 0, mut |-> Bit(Mut(id)),
-                       mir |-> Bit(~conf.req[id].nomir /\ ~Mut(id)), sig |-> Sig(id), inj |-> Bit(PKind(k) # "ok"),
+                       mir |-> Bit(~conf.req[id].nomir /\ ~Mut(id) /\ Direct(id) = "none"), sig |-> Sig(id), inj |-> Bit(PKind(k) # "ok"),
                        raw |-> k]
 
 \* --------------------------------------------------------------- init
@@ -385,9 +395,9 @@ PassRA ==
 \* backoffCur stays > 0, the anchor backoffLast lies in the past)
 Idle ==
   /\ call = NoCall
-  /\ \E h \in Hosts : hs[h].cur > 0 /\ hs[h].last + Delay(hs[h].cur) >= now
-  /\ now' = 1 + CHOOSE t \in {hs[h].last + Delay(hs[h].cur) : h \in {g \in Hosts : hs[g].cur > 0}} :
-                   \A h \in {g \in Hosts : hs[g].cur > 0} : hs[h].last + Delay(hs[h].cur) <= t
+  /\ \E h \in Hosts : hs[h].cur > 0 /\ hs[h].last + conf.dmax >= now
+  /\ now' = 1 + conf.dmax + CHOOSE t \in {hs[h].last : h \in {g \in Hosts : hs[g].cur > 0}} :
+                                \A h \in {g \in Hosts : hs[g].cur > 0} : hs[h].last <= t
   /\ obs' = <<[ev |-> "note", what |-> "idle"]>>
   /\ UNCHANGED <<conf, hs, rs, call, nf, ns>>
 
